@@ -120,6 +120,10 @@ def cases(tier):
             for padding in (0.0, 0.2):
                 for base in ("image", "array"):
                     out.append({"kind": "corr", "cls": "DriftCorrection", "active": active, "roi": roi, "padding": padding, "base": base})
+                    if padding == 0.0 and roi in ("none", "slices"):
+                        # the public `active` switch is flipped after construction: what is saved is the
+                        # object as it is, not as it was configured
+                        out.append({"kind": "corr", "cls": "DriftCorrection", "active": active, "roi": roi, "padding": padding, "base": base, "flip_active": True})
     for cfg in CURV_CONFIGS:
         for kw in CURV_KW:
             for cache in ("cold", "warm"):
@@ -653,6 +657,8 @@ def build_correction(case):
         if roi is not None:
             config["roi"] = roi
         corr = darsia.DriftCorrection(darsia.Image(base, dimensions=[1.0, 1.5]) if case["base"] == "image" else base, config=config)
+        if case.get("flip_active"):
+            corr.active = not corr.active
         # roi-sensitive probe: inside the box the scene is shifted by (3,-2), outside by (-5,7); a correction
         # that looks at another region than the original one aligns by another translation
         comp = crop(25, 37, 300, 400)
